@@ -61,6 +61,7 @@ def check(run, views, tier):
         rr.r_stop_onlyexit(run, F)
         # the parser accepts every value tag the encoder can announce (Other{tag} carries any tag of the value range)
         rr.r_dispatch(run, F)
+        c04.r_state_order(run, F)    # groups are closed and opened in message order, empty ones included; one value -> scalar, several -> set
         rr.r_reject(run, F)      # the parser refuses nothing the encoder can produce beyond the reviewed rejections
         # the encoder emits every attribute exactly once: ordered list, then exactly its complement (R-ORDERLIST), groups, end tag
         from . import c09
